@@ -72,10 +72,14 @@ ghost("path_of", ["str", "opt[str]"], "opt[str]")
 
 @contract("xandikos.webdav.Backend.get_resources",
           params={"self": "obj:xandikos.web.XandikosBackend", "relpaths": "dict[str,opt[str]]"},
-          returns="list[tuple[str,opt[opaque:Resource]]]")
+          returns="list[tuple[str,opt[opaque:Resource]]]", yields="tuple[str,opt[opaque:Resource]]",
+          may_raise=["ValueError", "KeyError", "AssertionError"])
 class Backend_get_resources_c:
     """One (relpath, resource-or-None) per key, in the dictionary's enumeration order; the
     resource is what get_resource returns for that path (named resource_at)."""
+
+    def requires(self):
+        return self.path != ""
 
     def ensures(self, relpaths, result):
         return (len(result) == len(keys_list(relpaths))
@@ -84,11 +88,18 @@ class Backend_get_resources_c:
                     result[j][0] == keys_list(relpaths)[j]
                     and result[j][1] == resource_at(posixpath.normpath(result[j][0])))))
 
+    def inv_0(self, relpaths, _i, _seq, _yielded):
+        return (_seq == keys_list(relpaths) and len(_yielded) == _i
+                and forall("int", lambda j: implies(
+                    0 <= j and j < _i,
+                    _yielded[j][0] == _seq[j] and _yielded[j][1] == resource_at(posixpath.normpath(_seq[j])))))
+
 
 @contract("xandikos.webdav._get_resources_by_hrefs",
           params={"backend": "obj:xandikos.web.XandikosBackend", "environ": "dict[str,str]", "hrefs": "list[opt[str]]"},
           returns="list[tuple[opt[str],opt[opaque:Resource]]]", yields="tuple[opt[str],opt[opaque:Resource]]",
-          locals={"paths": "dict[str,opt[str]]"}, loop_modifies={0: ["paths"]})
+          locals={"paths": "dict[str,opt[str]]"}, loop_modifies={0: ["paths"]},
+          may_raise=["ValueError", "KeyError", "AssertionError"])
 class get_resources_by_hrefs_c:
     """C17 (soundness half): every answer is for a requested href and carries exactly the
     resource that href addresses (None when it is outside the server's namespace or nothing
@@ -98,8 +109,8 @@ class get_resources_by_hrefs_c:
     (DESIGN 6/C17); it is covered by the bounded HTTP stand-in only, and the two ways the code
     deviates from it are known findings."""
 
-    def requires(environ):
-        return "SCRIPT_NAME" in environ
+    def requires(backend, environ):
+        return "SCRIPT_NAME" in environ and backend.path != ""
 
     def ensures_each_answer_is_right(backend, environ, hrefs, result):
         return forall("int", lambda j: implies(
